@@ -273,9 +273,18 @@ func ruleEveryHandlerOnce(c *Ctx, norm, ddt *ssa.Function) {
 		c.OK(rule, key, c.P.Pos(app.Pos()), what+": appended on every iteration of its loop")
 	}
 	check("R20.2", "input.Normalize/every-group-member-becomes-a-handler", handlersApp, "device handlers", false)
-	check("R20.3", "input.Normalize/type-decided-from-whole-group", typeListApp, "list handed to DetermineDeviceType", false)
+	// the type is decided from the whole group: DetermineDeviceType is given the group itself, or a list to which every member
+	// of the group is appended
+	groupItself := ddtCall != nil && isGroupValue(ddtCall.Call.Args[0])
+	if groupItself {
+		c.OK("R20.3", "input.Normalize/type-decided-from-whole-group", c.P.Pos(ddtCall.Pos()), "DetermineDeviceType is given the group of the location itself")
+	} else {
+		check("R20.3", "input.Normalize/type-decided-from-whole-group", typeListApp, "list handed to DetermineDeviceType", false)
+	}
 	check("R20.2", "input.Normalize/one-device-per-group", resultApp, "result devices", true)
-	if ddtCall != nil && typeListApp != nil {
+	if groupItself {
+		c.OK("R20.3", "input.Normalize/DetermineDeviceType-argument", c.P.Pos(ddtCall.Pos()), "DetermineDeviceType receives the whole group")
+	} else if ddtCall != nil && typeListApp != nil {
 		// the list given to DetermineDeviceType is the one appended to
 		same := false
 		var walk func(v ssa.Value, d int) bool
@@ -565,4 +574,51 @@ func ruleNoHiddenState(c *Ctx, roots []*ssa.Function) {
 		}
 	}
 	c.OK("R20.6", "grouping+classification/no-hidden-state", "-", fmt.Sprintf("%d function(s) reachable from Normalize / DetermineDeviceType / PhysicalUUID, %d reference(s) to package-level values, none to modified state", len(fns), n))
+}
+
+// isGroupValue: v is the slice of handlers of one physical location as stored in the collection: the value of a range over a
+// map keyed by PhysicalID, a lookup in such a map, or a load of the cell such a value was put in (a variable captured by a
+// closure, e.g. the comparator that sorts the group in place).
+func isGroupValue(v ssa.Value) bool {
+	isCollection := func(m ssa.Value) bool {
+		mt, ok := m.Type().Underlying().(*types.Map)
+		if !ok {
+			return false
+		}
+		nk, ok := mt.Key().(*types.Named)
+		return ok && nk.Obj().Name() == "PhysicalID"
+	}
+	for i := 0; i < 4; i++ {
+		switch x := v.(type) {
+		case *ssa.Extract:
+			if nx, ok := x.Tuple.(*ssa.Next); ok && x.Index == 2 {
+				if r, ok := nx.Iter.(*ssa.Range); ok {
+					return isCollection(r.X)
+				}
+			}
+			return false
+		case *ssa.Lookup:
+			return isCollection(x.X)
+		case *ssa.UnOp:
+			cell, ok := x.X.(*ssa.Alloc)
+			if !ok {
+				return false
+			}
+			var stored ssa.Value
+			n := 0
+			for _, r := range *cell.Referrers() {
+				if st, ok := r.(*ssa.Store); ok && st.Addr == ssa.Value(cell) {
+					stored = st.Val
+					n++
+				}
+			}
+			if n != 1 {
+				return false
+			}
+			v = stored
+		default:
+			return false
+		}
+	}
+	return false
 }
